@@ -49,6 +49,8 @@ def jobs(tier):
     from harness import matrix
     for i, row in matrix.rows(tier):
         out.append(("matrix." + matrix.label(i, row), "job_matrix", dict(row=row)))
+    out.append(("rewritten-same-size-same-mtime.flat2", "job_rewritten", dict(P=16384, keep_mtime=True)))
+    out.append(("rewritten-same-size.flat2", "job_rewritten", dict(P=16384, keep_mtime=False)))
     out.append(("seq.flat2.P16384-then-P65536", "job_seq", dict(P1=16384, P2=65536)))
     out.append(("seq.flat2.P32768-then-P16384", "job_seq", dict(P1=32768, P2=16384)))
     if not q:
@@ -102,6 +104,31 @@ def job_matrix(E, row, _mutants=None):
                "C15.matrix", align=True, _mutants=_mutants)
 
 
+def job_rewritten(E, P, keep_mtime, _mutants=None):
+    """Aligned creation, a payload file replaced by other bytes of the same length (timestamps preserved, as cp -p or
+    rsync -t leave them), aligned creation again in the same process: the second metafile describes the new bytes."""
+    from harness import matrix
+    from symx.abuf import ABuf
+    shape = "flat2"
+    fs, sizes = cr.make_fs(E, shape, 2, P, order="reversed")
+    E.assume(disj(*[s > 0 for s in sizes.values()]))
+    E.assume(sizes["name/a"] > 0)
+    w = World(fs, mutants=_mutants)
+    try:
+        cr.create(w, "1", path="/data/name", piece_length=P, progress=0, align=True)
+        stamps = (dict(fs.mtime), fs.clock)
+        fs.add("/data/name/a", ("f", "rewritten"), sizes["name/a"])
+        if keep_mtime:
+            fs.mtime, fs.clock = dict(stamps[0]), stamps[1]
+        t = cr.create(w, "1", path="/data/name", piece_length=P, progress=0, align=True)
+    except Exception as ex:  # noqa: BLE001
+        E.fail("C15.no-exception", "%s: %s" % (type(ex).__name__, ex))
+        return
+    contents = {"name/a": ABuf.file(("f", "rewritten"), sizes["name/a"]), "name/b": ABuf.file(("f", 1), sizes["name/b"])}
+    with matrix.content_override(shape, contents):
+        orc.oracle_aligned_v1(E, t.meta["info"], sizes, P, shape, "C15.rewritten")
+
+
 def job_seq(E, P1, P2, _mutants=None):
     """Two aligned creations by one process with different piece lengths: the
     second must still satisfy the property (no buffer or table may be carried over)."""
@@ -146,7 +173,37 @@ def conc_aligned(info, data, P, shape):
     return sorted(set(bad))
 
 
+def _replay_rewritten(params, model, workdir, seed):
+    import io
+    import contextlib
+    shape, P = "flat2", params["P"]
+    sizes = cr.concrete_sizes(shape, model)
+    root, data = cr.materialize(workdir, shape, sizes, seed)
+    mods = cr.real_torrentfile()
+    T = mods["torrentfile.torrent"]
+    pa = os.path.join(root, "a")
+    try:
+        with contextlib.redirect_stdout(io.StringIO()):
+            T.TorrentFile(path=root, piece_length=P, align=True, progress=0)
+            st = os.stat(pa)
+            dst = os.stat(root)
+            new = refconc.content(("f", "rewritten"), sizes["name/a"], seed)
+            with open(pa, "wb") as f:
+                f.write(new)
+            if params["keep_mtime"]:
+                os.utime(pa, ns=(st.st_atime_ns, st.st_mtime_ns))
+                os.utime(root, ns=(dst.st_atime_ns, dst.st_mtime_ns))
+            t = T.TorrentFile(path=root, piece_length=P, align=True, progress=0)
+    except Exception as ex:  # noqa: BLE001
+        return ["C15.no-exception: %s" % ex]
+    data = dict(data)
+    data["name/a"] = new
+    return ["C15.rewritten." + b for b in conc_aligned(t.meta["info"], data, P, shape)]
+
+
 def replay(params, model, notes, workdir, seed):
+    if "keep_mtime" in params:
+        return _replay_rewritten(params, model, workdir, seed)
     if "row" in params:
         from harness import matrix
         row = params["row"]
